@@ -99,6 +99,11 @@ type FnCtx struct {
 	errInit map[string]bool
 	ctVals map[string]Val
 	canonDone map[string]bool
+	inline *inlineCtx
+	parentCtx *FnCtx
+	recoverCalled *smt.Term
+	callPanicked map[string]*smt.Term
+	callPanicVal map[string]*smt.Term
 	staticOrd map[ssa.Instruction]int
 	staticName map[ssa.Instruction]string
 	typeInvUsed map[string]bool
@@ -187,6 +192,9 @@ func (fc *FnCtx) reset(dry bool) {
 	fc.errInit = map[string]bool{}
 	fc.ctVals = map[string]Val{}
 	fc.canonDone = map[string]bool{}
+	fc.recoverCalled = smt.False
+	fc.callPanicked = map[string]*smt.Term{}
+	fc.callPanicVal = map[string]*smt.Term{}
 	fc.typeInvUsed = map[string]bool{}
 	fc.refKeys = map[string]bool{}
 	fc.byteDone = map[string]bool{}
@@ -507,6 +515,17 @@ func (fc *FnCtx) havocAll(st *State) {
 		}
 		old := st.H[k]
 		fc.havocKey(st, k)
+		// captured variables that are never reassigned keep their value
+		if old != nil && strings.HasPrefix(k, "cell:") {
+			for _, fv := range fc.Fn.FreeVars {
+				v, ok := fc.vals[fv]
+				if !ok || v.Loc == nil || v.Loc.Kind != LCell || v.Loc.Key != k || !immutableFreeVar(fv) {
+					continue
+				}
+				st.H[k] = fc.S.Define("H_"+k, smt.Store(st.H[k], v.Loc.Base, smt.Select(old, v.Loc.Base)))
+				fc.Used["captured variable "+fv.Name()+" is never reassigned (scan of its stores)"] = true
+			}
+		}
 		// objects allocated here that have not escaped yet cannot be touched by the callee
 		if old != nil {
 			for _, r := range fc.freshRefs {
@@ -933,6 +952,9 @@ func (fc *FnCtx) safety(kind string, guard, goal *smt.Term, where string) {
 }
 
 func (fc *FnCtx) nilCheck(base, guard *smt.Term, where string) {
+	if where == "spec" {
+		return
+	}
 	if v, ok := base.IsIntLit(); ok && v != 0 {
 		return
 	}
@@ -988,6 +1010,11 @@ func (fc *FnCtx) run() {
 	}
 	for _, fv := range fn.FreeVars {
 		v := fc.freshVal("fv_"+fv.Name(), fv.Type())
+		if v.T != nil && (kindOf(fv.Type()) == KPtr || kindOf(fv.Type()) == KRef) {
+			if _, isPtr := fv.Type().Underlying().(*types.Pointer); isPtr {
+				fc.S.Assert(smt.Gt(v.T, smt.IntLit(0)), "a captured variable's address is never nil")
+			}
+		}
 		fc.vals[fv] = v
 		fc.params[fv.Name()] = v
 	}
@@ -1345,4 +1372,57 @@ func (fc *FnCtx) assumeTypeInvs(st *State) {
 			fc.typeInvUsed[ti.Type] = true
 		}
 	}
+}
+
+// immutableFreeVar: the captured variable is stored exactly once (its
+// initialisation in the enclosing function) and never through this closure.
+func immutableFreeVar(fv *ssa.FreeVar) bool {
+	if refs := fv.Referrers(); refs != nil {
+		for _, r := range *refs {
+			if st, ok := r.(*ssa.Store); ok && st.Addr == fv {
+				return false
+			}
+		}
+	}
+	fn := fv.Parent()
+	parent := fn.Parent()
+	if parent == nil {
+		return false
+	}
+	idx := -1
+	for i, f := range fn.FreeVars {
+		if f == fv {
+			idx = i
+		}
+	}
+	ok := false
+	for _, b := range parent.Blocks {
+		for _, in := range b.Instrs {
+			mc, isMC := in.(*ssa.MakeClosure)
+			if !isMC || mc.Fn != fn || idx >= len(mc.Bindings) {
+				continue
+			}
+			al, isAlloc := mc.Bindings[idx].(*ssa.Alloc)
+			if !isAlloc {
+				return false
+			}
+			stores := 0
+			if refs := al.Referrers(); refs != nil {
+				for _, r := range *refs {
+					switch x := r.(type) {
+					case *ssa.Store:
+						if x.Addr == al {
+							stores++
+						}
+					case *ssa.MakeClosure:
+						if x.Fn != fn {
+							return false // shared with another closure: not analysed
+						}
+					}
+				}
+			}
+			ok = stores <= 1
+		}
+	}
+	return ok
 }
